@@ -39,6 +39,8 @@ const (
 	stringOSPathSeparator = string(os.PathSeparator)
 	// This has to be with "/" instead of os.PathSeparator as we use this on normalized paths
 	normalizedRelPathJumpContextPrefix = "../"
+	// A normalized path that is exactly ".." also jumps context.
+	normalizedRelPathJumpContext = ".."
 )
 
 var (
